@@ -10,6 +10,69 @@ const maxInt64 = math.MaxInt64
 const minInt64 = math.MinInt64
 
 func init() {
+	// BITOP on string values (the bit-exact semantics of the other bitmap
+	// commands are C18's subject and not modelled; BITOP is here because it is
+	// a multi-key read-modify-write command that C08 names)
+	reg("bitop", -4, true, func(m *Model, s *Sess, a []string, _ bool) Expect {
+		op := upper(a[1])
+		dest, srcs := a[2], a[3:]
+		if op != "AND" && op != "OR" && op != "XOR" && op != "NOT" {
+			return eArgErr()
+		}
+		if op == "NOT" && len(srcs) != 1 {
+			return eArgErr()
+		}
+		var vals [][]byte
+		longest := 0
+		for _, k := range srcs {
+			o := m.get(s, k)
+			if o == nil {
+				vals = append(vals, nil)
+				continue
+			}
+			if o.T != tString {
+				return eWrongType()
+			}
+			vals = append(vals, []byte(o.S))
+			if len(o.S) > longest {
+				longest = len(o.S)
+			}
+		}
+		if longest == 0 {
+			// an empty result is not stored: the destination is removed
+			m.del(s, dest)
+			return eInt(0)
+		}
+		res := make([]byte, longest)
+		at := func(v []byte, i int) byte {
+			if i < len(v) {
+				return v[i]
+			}
+			return 0
+		}
+		for i := 0; i < longest; i++ {
+			switch op {
+			case "NOT":
+				res[i] = ^at(vals[0], i)
+			default:
+				b := at(vals[0], i)
+				for _, v := range vals[1:] {
+					switch op {
+					case "AND":
+						b &= at(v, i)
+					case "OR":
+						b |= at(v, i)
+					case "XOR":
+						b ^= at(v, i)
+					}
+				}
+				res[i] = b
+			}
+		}
+		m.set(s, dest, &mObj{T: tString, S: string(res)})
+		return eInt(int64(longest))
+	})
+
 	reg("set", -3, true, mSet)
 	reg("setnx", 3, true, func(m *Model, s *Sess, a []string, _ bool) Expect {
 		if m.get(s, a[1]) != nil {
